@@ -28,6 +28,8 @@ pub enum Edit {
     ReplaceCreator,
     FlipSignature,
     ZeroSignature,
+    /// point an input at another unspent output of the same owner / amount / slip index
+    RewriteInputCoordinates,
     // header fields inside the signed pre-hash (identity must change)
     SignedField(usize),
     // header fields outside the signed pre-hash (observation only)
@@ -91,6 +93,7 @@ pub fn apply(edit: Edit, orig: &Block, donor: Option<&Block>, rng: &mut Rng) -> 
         Edit::ReplaceCreator => b.creator[5] ^= 1,
         Edit::FlipSignature => b.signature[rng.below(64) as usize] ^= 1 << rng.below(8),
         Edit::ZeroSignature => b.signature = [0; 64],
+        Edit::RewriteInputCoordinates => return None, // built by rewrite_input() with ledger access
         Edit::SignedField(k) => match k % 12 {
             0 => b.id += 1,
             1 => b.timestamp += 1,
@@ -121,6 +124,46 @@ pub fn apply(edit: Edit, orig: &Block, donor: Option<&Block>, rng: &mut Rng) -> 
     Some(b)
 }
 
+/// same transaction hashes (merkle leaves) but different bytes: the difference lies in fields the
+/// transaction hash does not cover (block id / ordinal of an input)
+fn same_leaves_different_bytes(a: &Block, b: &Block) -> bool {
+    let la: Vec<_> = a.transactions.iter().map(|t| t.hash_for_signature).collect();
+    let lb: Vec<_> = b.transactions.iter().map(|t| t.hash_for_signature).collect();
+    la == lb && tx_list_id(a) != tx_list_id(b)
+}
+
+/// rewrite one input to a twin output (same owner, amount, slip index, type; other block id /
+/// ordinal) that is unspent on the parent's ledger
+fn rewrite_input(orig: &Block, ledger: &crate::chain::RefLedger, gp: u64) -> Option<Block> {
+    let mut b = Block::deserialize_from_net(&block_bytes(orig)).ok()?;
+    let spent_here: Vec<[u8; 59]> = orig.transactions.iter().flat_map(|t| t.from.iter().map(|s| ref_key(&s.public_key, s.block_id, s.tx_ordinal, s.slip_index, s.amount, s.slip_type as u8))).collect();
+    for tx in b.transactions.iter_mut() {
+        if tx.transaction_type != saito_core::core::consensus::transaction::TransactionType::Normal {
+            continue;
+        }
+        for input in tx.from.iter_mut() {
+            if input.amount == 0 {
+                continue;
+            }
+            let twin = ledger.utxo.values().find(|o| {
+                o.owner == input.public_key
+                    && o.amount == input.amount
+                    && o.slip_index == input.slip_index
+                    && o.slip_type == input.slip_type as u8
+                    && (o.block_id, o.tx_ordinal) != (input.block_id, input.tx_ordinal)
+                    && ledger.in_window(o, gp)
+                    && !spent_here.contains(&o.key())
+            });
+            if let Some(t) = twin {
+                input.block_id = t.block_id;
+                input.tx_ordinal = t.tx_ordinal;
+                return Some(b);
+            }
+        }
+    }
+    None
+}
+
 fn edits(rng: &mut Rng) -> Vec<Edit> {
     let mut v = vec![
         Edit::DropTx,
@@ -135,6 +178,7 @@ fn edits(rng: &mut Rng) -> Vec<Edit> {
         Edit::ReplaceCreator,
         Edit::FlipSignature,
         Edit::ZeroSignature,
+        Edit::RewriteInputCoordinates,
     ];
     for k in 0..12 {
         v.push(Edit::SignedField(k));
@@ -154,7 +198,7 @@ fn edit_name(e: Edit) -> String {
 }
 
 fn touches_tx_list(e: Edit) -> bool {
-    matches!(e, Edit::DropTx | Edit::DuplicateTx | Edit::SwapTxs | Edit::ReverseTxs | Edit::AddForeignTx | Edit::MutateTxAmount | Edit::MutateTxData | Edit::ZeroMerkleRootAndDropTx)
+    matches!(e, Edit::RewriteInputCoordinates | Edit::DropTx | Edit::DuplicateTx | Edit::SwapTxs | Edit::ReverseTxs | Edit::AddForeignTx | Edit::MutateTxAmount | Edit::MutateTxData | Edit::ZeroMerkleRootAndDropTx)
 }
 
 fn verification_thread(node: &LNode) -> (VerificationThread, tokio::sync::mpsc::Receiver<ConsensusEvent>) {
@@ -223,12 +267,31 @@ pub async fn run(ctx: &Ctx, rep: &mut Report) {
         let mut cfg = HistoryCfg::basic(Params::with_gp(gp));
         cfg.fee = (100, 30_000);
         cfg.txs = (2, 5);
+        // twin outputs: same owner and amount in different issuance transactions
+        for v in cfg.issuance.iter_mut() {
+            for _ in 0..4 {
+                v.push(777_777);
+            }
+        }
         let mut h = History::new(cfg).await;
         let len = if gp == 5 { 16 } else { 10 };
         let mut prev_block: Option<Block> = None;
         for _ in 0..len {
             let parent = h.head;
-            let step = match h.step(&mut rng).await {
+            // an ordinary random block plus one payment that spends a "twin" output
+            let mut txs = h.pick_txs(&mut rng, &parent);
+            {
+                let ledger = h.b.store.ledger(&parent);
+                let used: Vec<[u8; 59]> = txs.iter().flat_map(|t| t.from.iter().map(|s| ref_key(&s.public_key, s.block_id, s.tx_ordinal, s.slip_index, s.amount, s.slip_type as u8))).collect();
+                let a = h.b.actors[1 + rng.below(4) as usize].clone();
+                if let Some(o) = ledger.safe_owned_by(&a.pk, gp).into_iter().find(|o| o.amount == 777_777 && !used.contains(&o.key())) {
+                    txs.push(build_tx(&a, &[o.clone()], &[(h.b.actors[0].pk, 700_000), (a.pk, 70_000)], h.b.store.get(&parent).ts + 9, &[]));
+                    rep.count("twin_spend_included");
+                }
+            }
+            let with_gt = h.pick_gt(&mut rng, &parent);
+            let spec = crate::chain::BlockSpec { gap: 2 * h.cfg.params.heartbeat, txs, with_gt, gt_miner: 1 };
+            let step = match h.deliver_spec(&mut rng, &parent, &spec).await {
                 Ok(s) => s,
                 Err(_) => break,
             };
@@ -236,9 +299,24 @@ pub async fn run(ctx: &Ctx, rep: &mut Report) {
             accepted.insert(orig.hash, tx_list_id(&orig));
             rep.count("base_blocks");
             for e in edits(&mut rng) {
-                let edited = match apply(e, &orig, prev_block.as_ref(), &mut rng) {
-                    Some(b) => b,
-                    None => continue,
+                let edited = if e == Edit::RewriteInputCoordinates {
+                    let ledger = h.b.store.ledger(&parent);
+                    match rewrite_input(&orig, &ledger, gp) {
+                        Some(b) => b,
+                        None => {
+                            if std::env::var("SVH_DEBUG").is_ok() {
+                                let tw: Vec<_> = orig.transactions.iter().flat_map(|t| t.from.iter()).filter(|s| s.amount == 777_777).map(|s| (s.block_id, s.tx_ordinal, s.slip_index)).collect();
+                                let avail = ledger.utxo.values().filter(|o| o.amount == 777_777).count();
+                                eprintln!("no rewrite: block {} twin inputs {:?} twins unspent in ledger {}", orig.id, tw, avail);
+                            }
+                            continue
+                        }
+                    }
+                } else {
+                    match apply(e, &orig, prev_block.as_ref(), &mut rng) {
+                        Some(b) => b,
+                        None => continue,
+                    }
                 };
                 let bytes = block_bytes(&edited);
                 let mut probe = match Block::deserialize_from_net(&bytes) {
@@ -272,7 +350,14 @@ pub async fn run(ctx: &Ctx, rep: &mut Report) {
                 let on_lc = after != before && after.1 == probe.hash;
                 if on_lc {
                     let content_equal = tx_list_id(&probe) == tx_list_id(&orig) && probe.creator == orig.creator && probe.signature == orig.signature;
-                    if same_hash && touches_tx_list(e) && !content_equal {
+                    if same_hash && touches_tx_list(e) && !content_equal && same_leaves_different_bytes(&probe, &orig) {
+                        rep.count("accepted_same_leaves_different_bytes");
+                        rep.violation(
+                            "C06|clause=same-hash-different-transaction-bytes|cause=tx-hash-omits-input-coordinates",
+                            &format!("[gp={}] block {} edited by {} keeps every transaction hash, the merkle root and the block hash, carries different transaction bytes (input block id / ordinal) and is accepted onto the longest chain", gp, step.id, name),
+                            witness.clone(),
+                        );
+                    } else if same_hash && touches_tx_list(e) && !content_equal {
                         rep.violation(
                             &format!("C06|clause=edited-tx-list-accepted-under-same-hash|edit={}", name),
                             &format!("[gp={}] block {} with its transaction list edited ({}) keeps hash {} and is accepted onto the longest chain", gp, step.id, name, crate::monitors::short(&orig.hash)),
@@ -298,7 +383,7 @@ pub async fn run(ctx: &Ctx, rep: &mut Report) {
                     }
                     // clause (b): two accepted blocks with one hash have equal tx lists
                     if let Some(list) = accepted.get(&probe.hash) {
-                        if list != &tx_list_id(&probe) {
+                        if list != &tx_list_id(&probe) && !same_leaves_different_bytes(&probe, &orig) {
                             rep.violation(
                                 &format!("C06|clause=two-accepted-blocks-one-hash|edit={}", name),
                                 &format!("[gp={}] two blocks accepted under hash {} have different transaction lists", gp, crate::monitors::short(&probe.hash)),
@@ -370,7 +455,14 @@ pub async fn run(ctx: &Ctx, rep: &mut Report) {
                         let r = crate::panics::catch_async(node.add_bytes(&bytes)).await;
                         let stored = { node.chain.read().await.blocks.contains_key(&orig.hash) };
                         if let Ok(Some(res)) = &r {
-                            if res.accepted() || stored {
+                            if (res.accepted() || stored) && same_leaves_different_bytes(&probe, &orig) {
+                                rep.count("stored_same_leaves_different_bytes");
+                                rep.violation(
+                                    "C06|clause=same-hash-different-transaction-bytes|cause=tx-hash-omits-input-coordinates",
+                                    &format!("[gp={}] a copy of block {} ({}) with identical transaction hashes but different transaction bytes is stored under the original hash", gp, step.id, name),
+                                    json!({"kind":"block-edit-side","edit":name,"parent_chain_hex": h.b.store.ancestors(&parent).iter().map(|x| hex::encode(&h.b.store.get(x).bytes)).collect::<Vec<_>>(),"sibling_hex": hex::encode(&sib_bytes),"edited_block_hex": hex::encode(&bytes)}),
+                                );
+                            } else if res.accepted() || stored {
                                 let real = node.add_bytes(&h.b.store.get(&step.hash).bytes.clone()).await;
                                 rep.violation(
                                     &format!("C06|clause=edited-copy-stored-under-original-hash|edit={}", name),
